@@ -216,28 +216,17 @@ func c08(e *Env) {
 	}
 	e.positiveControls("go-or-select")
 	ob3 := r.Ob("R3", "createTasks:single-sender", "the task-creation goroutine starts no further goroutine (tasks are fed to Process.Run by one sequential sender)")
-	if ct := p.DeclaredMethod("scipipe", "Process", "createTasks"); ct != nil {
-		for _, b := range ct.Blocks {
-			for _, in := range b.Instrs {
-				if gi, ok := in.(*ssa.Go); ok {
-					if f := funcOf(gi.Call.Value); f != nil {
-						gc := e.XG(f)
-						if gc == nil {
-							continue
-						}
-						nGo := 0
-						for _, n := range gc.Nodes {
-							if n.IsGo {
-								nGo++
-								ob3.Fail(gc.Where(n), "goroutine started inside the task-creation goroutine")
-							}
-						}
-						if nGo == 0 {
-							ob3.OK(core.FuncName(f), "no go statement in its call tree")
-						}
-					}
-				}
+	// the task-creation goroutine: the go target in Process.Run's call tree that sends *Task values
+	if f, gc := e.taskFeeder(); f != nil && gc != nil {
+		nGo := 0
+		for _, n := range gc.Nodes {
+			if n.IsGo {
+				nGo++
+				ob3.Fail(gc.Where(n), "goroutine started inside the task-creation goroutine")
 			}
+		}
+		if nGo == 0 {
+			ob3.OK(core.FuncName(f), "no go statement in its call tree")
 		}
 	}
 	if ob3.Sites == 0 {
